@@ -3,6 +3,7 @@ package main
 // Per-function verification: build the encoding, settle candidate invariants (Houdini), discharge obligations.
 
 import (
+	"context"
 	"fmt"
 	"go/types"
 	"os"
@@ -42,6 +43,7 @@ type FuncReport struct {
 	Unsupported []string
 	EncodeTime float64
 	TotalTime  float64
+	HoudiniTime float64
 }
 
 type runOpts struct {
@@ -83,7 +85,7 @@ func (e *Enc) buildQueryX(pre []string, o *Obligation, model bool, light bool) s
 		sb.WriteByte('\n')
 	}
 	for _, c := range e.cmds[:o.CmdIdx] {
-		if light && strings.HasPrefix(c, "(assert") && (strings.Contains(c, "(forall ") || strings.Contains(c, "(exists ")) {
+		if light && strings.HasPrefix(c, "(assert") && (strings.Contains(c, "(forall ") || strings.Contains(c, "(exists ")) && !strings.HasPrefix(c, "(assert (=> cand!") {
 			continue
 		}
 		sb.WriteString(c)
@@ -99,6 +101,27 @@ func (e *Enc) buildQueryX(pre []string, o *Obligation, model bool, light bool) s
 		sb.WriteString("(get-model)\n")
 	}
 	return sb.String()
+}
+
+// provedNow asks the solvers, while encoding, whether guard => fact follows from everything assumed so far
+// (quantifier-free slice, short timeout). Used only to pick a simpler but equivalent encoding.
+func (e *Enc) provedNow(guard, fact Term) bool {
+	if fact.isC {
+		return fact.c != 0
+	}
+	if e.workdir == "" {
+		return false
+	}
+	o := &Obligation{Name: "encode-time", Goal: implies(guard, fact), CmdIdx: len(e.cmds)}
+	q := e.buildQueryX(e.finishPreamble(), o, false, true)
+	e.encQ++
+	file := filepath.Join(e.workdir, fmt.Sprintf("enc_%d.smt2", e.encQ))
+	if err := os.WriteFile(file, []byte(q), 0o644); err != nil {
+		return false
+	}
+	defer os.Remove(file)
+	v, _, _ := runOne(context.Background(), allSolvers[0], file, 1)
+	return v == "unsat"
 }
 
 // houdini settles candidate invariants: greatest set that is inductive.
@@ -137,9 +160,18 @@ func (e *Enc) houdini(pre []string, workdir string) {
 				sem <- struct{}{}
 				defer func() { <-sem }()
 				// quantifier-free slice only: an unsat answer stays valid, anything else just drops the candidate
-				q := e.buildQueryX(pre, j.o, false, !e.quantCands)
-				r := solve(workdir, fmt.Sprintf("cand_%d_%d", iter, ji), q, 3, false)
-				if r.Verdict != "unsat" {
+				q := e.buildQueryX(pre, j.o, false, true)
+				file := filepath.Join(workdir, fmt.Sprintf("cand_%d_%d.smt2", iter, ji))
+				os.WriteFile(file, []byte(q), 0o644)
+				v, _, _ := runOne(context.Background(), allSolvers[0], file, 2)
+				os.Remove(file)
+				if v != "unsat" && v != "sat" {
+					// undecided under a short limit: a candidate must not be lost to a busy machine
+					// (that would make later obligations fail spuriously) - race all solvers with more time
+					r := solve(workdir, fmt.Sprintf("cand_%d_%d_retry", iter, ji), q, 20, false)
+					v = r.Verdict
+				}
+				if v != "unsat" {
 					mu.Lock()
 					failed[j.c] = true
 					mu.Unlock()
@@ -165,7 +197,15 @@ func (p *Prog) findFunc(key string) *ssa.Function {
 
 // encodeFunction builds the encoding of one contracted function.
 func (p *Prog) encodeFunction(fn *ssa.Function, ct *Contract) *Enc {
+	return p.encodeFunctionIn(fn, ct, "")
+}
+
+func (p *Prog) encodeFunctionIn(fn *ssa.Function, ct *Contract, workdir string) *Enc {
 	e := newEnc(p, fn, ct)
+	if workdir != "" {
+		os.MkdirAll(workdir, 0o755)
+		e.workdir = workdir
+	}
 	e.siteHits = map[int]int{}
 	e.ghostSorts = map[string]Sort{}
 	e.ghostTypes = map[string]types.Type{}
@@ -182,8 +222,10 @@ func (p *Prog) encodeFunction(fn *ssa.Function, ct *Contract) *Enc {
 	f := &Frame{e: e, fn: fn, safety: ct.Safety}
 	st := &State{heaps: map[string]Term{}, wm: sym("wm0", SRef)}
 	for _, pat := range e.tracked {
-		gn := ghostName("called", pat, -1)
-		e.predeclare(gn+"@0", fmt.Sprintf("(declare-const %s@0 Bool)\n(assert (not %s@0))", gn, gn))
+		for _, kind := range []string{"called", "itercalled"} {
+			gn := ghostName(kind, pat, -1)
+			e.predeclare(gn+"@0", fmt.Sprintf("(declare-const %s@0 Bool)\n(assert (not %s@0))", gn, gn))
+		}
 	}
 	// parameters
 	var params []Value
@@ -206,6 +248,9 @@ func (p *Prog) encodeFunction(fn *ssa.Function, ct *Contract) *Enc {
 	}
 	if len(ct.Results) != fn.Signature.Results().Len() {
 		e.specError(fmt.Sprintf("contract %s is stale: header has %d results, function has %d", ct.Key, len(ct.Results), fn.Signature.Results().Len()))
+	}
+	if fn.Pkg != nil {
+		p.axiomCmdsFor(e, fn.Pkg.Pkg.Path())
 	}
 	// package initialisation: the ensures of a contract on <pkg>.init (proved separately against the
 	// package's init function) are assumed at entry, together with A13 (package-level variables written
@@ -364,7 +409,7 @@ func (f *Frame) frameObligations(ct *Contract, final *State, rg Term, top string
 func (ct *Contract) specPatterns() []string {
 	var out []string
 	add := func(s string) {
-		for _, kw := range []string{"ret(", "argof(", "called("} {
+		for _, kw := range []string{"ret(", "argof(", "called(", "itercalled("} {
 			rest := s
 			for {
 				k := strings.Index(rest, kw)
@@ -405,6 +450,9 @@ func (ct *Contract) specPatterns() []string {
 		for _, c := range l.Invariants {
 			add(c.Text)
 		}
+		for _, c := range l.Steps {
+			add(c.Text)
+		}
 	}
 	return out
 }
@@ -429,7 +477,7 @@ func (p *Prog) verifyFunction(ct *Contract, opts runOpts) *FuncReport {
 				}
 			}
 		}()
-		e = p.encodeFunction(fn, ct)
+		e = p.encodeFunctionIn(fn, ct, filepath.Join(opts.workdir, sanitize(shortFuncName(fn))))
 	}()
 	rep.EncodeTime = time.Since(t0).Seconds()
 	rep.SpecErrors = e.specErrors
@@ -453,7 +501,9 @@ func (p *Prog) verifyFunction(ct *Contract, opts runOpts) *FuncReport {
 	pre := e.finishPreamble()
 	wd := filepath.Join(opts.workdir, sanitize(shortFuncName(fn)))
 	os.MkdirAll(wd, 0o755)
+	th := time.Now()
 	e.houdini(pre, wd)
+	rep.HoudiniTime = time.Since(th).Seconds()
 	rep.Cands = len(e.cands)
 	for _, c := range e.cands {
 		if !c.Dropped {
@@ -528,6 +578,19 @@ func (p *Prog) verifyFunction(ct *Contract, opts runOpts) *FuncReport {
 		go run(o, &rep.Covers, &mu)
 	}
 	wg.Wait()
+	// second chance for undecided obligations: alone (no competition for cores) and with a longer timeout,
+	// so that a busy machine does not turn a slow-but-provable obligation into an alarm
+	for _, r := range rep.Results {
+		if r.Res.Verdict == "unsat" || r.Res.Verdict == "sat" || r.Relaxed {
+			continue
+		}
+		q := e.buildQuery(pre, r.O, true)
+		r2 := solve(wd, r.O.Name+"_retry", q, opts.timeoutS*3, false)
+		if r2.Verdict == "unsat" || r2.Verdict == "sat" {
+			r2.Solver += " (retry)"
+			r.Res = r2
+		}
+	}
 	rep.TotalTime = time.Since(t0).Seconds()
 	sort.Slice(rep.Results, func(i, j int) bool { return rep.Results[i].O.Name < rep.Results[j].O.Name })
 	sort.Slice(rep.Covers, func(i, j int) bool { return rep.Covers[i].O.Name < rep.Covers[j].O.Name })
